@@ -94,7 +94,9 @@ def _post(kind):
                 e = abs(one - v) / max(abs(v), 1e-300)
                 if e > worst:
                     worst, bad = e, (float(xa[j]), float(gs[j]), v, one)
-            c.check("cond.vector-eq-scalar", worst <= 1e-12, f"conditional {fam}.{kind}: vectorised call differs from one pair at a time", family=fam, witness=bad, rel=worst)
+            # (1e-9: the user's callable may differ by an ulp between a Python float and an array element, which a
+            # far-tail probability amplifies; a diverging code path is orders of magnitude larger)
+            c.check("cond.vector-eq-scalar", worst <= 1e-9, f"conditional {fam}.{kind}: vectorised call differs from one pair at a time", family=fam, witness=bad, rel=worst)
 
     return post
 
